@@ -32,7 +32,7 @@ std::pair<bool, int> TetrisLegalizer::attemptPlacement(int cell, int y) const {
   // Need to handle non-classical orientation
   int width = cellWidth_[cell];
   int height = cellHeight_[cell];
-  if (isTurn(orient)) {
+  if (isTurn(orient) != isTurn(cellTargetOrientation_[cell])) {
     std::swap(width, height);
   }
   auto p = getPossibleIntervals(width, height, y);
@@ -107,7 +107,8 @@ void TetrisLegalizer::placeCell(int cell) {
   // Need to handle non-classical orientation
   int width = cellWidth_[cell];
   int height = cellHeight_[cell];
-  if (isTurn(cellToOrientation_[cell])) {
+  if (isTurn(cellToOrientation_[cell]) !=
+      isTurn(cellTargetOrientation_[cell])) {
     std::swap(width, height);
   }
   instanciateCell(bestX, bestY, width, height);
